@@ -88,7 +88,10 @@ def oracle_values(spec, dtype, asbuilt=()):
     ya, ua = P.marginal(epd)
     o['ya'], o['ua'] = ya, ua
     o['XPD'] = 2 * (ya[-1] + ua[-1] * o['XPL'])
-    o['mag'] = abs(P.n[0]) * ua[0] / (abs(P.n[-1]) * ua[-1])
+    # lateral magnification n u / (n' u') with SIGNED indices (mirror = index sign reversal)
+    o['mag'] = P.n[0] * ua[0] / (P.n[-1] * ua[-1])
+    if 'mirror-unsigned-index' in asbuilt:
+        o['mag'] = abs(P.n[0]) * ua[0] / (abs(P.n[-1]) * ua[-1])
     fmax = max(f[0] for f in spec['fields'])
     yb, ub, yobj, uobj = P.chief(spec['field_type'], fmax)
     o['yb'], o['ub'], o['ub0'] = yb, ub, uobj
@@ -124,6 +127,10 @@ def check_case(case, rec):
     P_ab = L.psys(spec, ignore_r2=True)
     neg = float(P.power()) < 0 or float(P_ab.power()) < 0
     mech = set()
+    odd_mirrors = L.n_mirrors(spec) % 2 == 1
+    first_mirror = spec['surfaces'][0].get('medium') == 'mirror'
+    if odd_mirrors or first_mirror:
+        mech.add('mirror-unsigned-index')
     if asph_c1:
         mech.add('asphere-r2-term')
     if neg:
@@ -136,7 +143,7 @@ def check_case(case, rec):
         return float(np.max(np.abs(np.asarray(o64[name], float) - np.asarray(old[name], float))))
 
     def flags_for(*names):
-        return tuple(m for m in ('asphere-r2-term', 'negative-power')
+        return tuple(m for m in ('asphere-r2-term', 'negative-power', 'mirror-unsigned-index')
                      if m in mech and m in names)
 
     par = lens.paraxial
@@ -165,7 +172,8 @@ def check_case(case, rec):
     cmp_scalar('EPD', par.EPD(), (A, NP) if fno_ap else (A,))
     cmp_scalar('FNO', par.FNO(), (A,) if fno_ap else (A, NP), lenscale=False)
     cmp_scalar('XPD', par.XPD(), (A, NP) if fno_ap else (A,))
-    cmp_scalar('mag', par.magnification(), (A, NP) if fno_ap else (A,), lenscale=False)
+    MU = 'mirror-unsigned-index'
+    cmp_scalar('mag', par.magnification(), ((A, NP) if fno_ap else (A,)) + ((MU,) if odd_mirrors else ()), lenscale=False)
 
     # marginal ray (index 0 = object record)
     ya, ua = par.marginal_ray()
@@ -200,9 +208,11 @@ def check_case(case, rec):
         spread = float(np.max(inv) - np.min(inv)) / sc
         rec.check('invariant-constant', spread <= 1e-9, resid=spread, tol=1e-9,
                   msg=f'Lagrange invariant varies over surfaces by {spread:.3e} (relative)', detail=dict(inv=inv))
-        want_inv = abs(float(nsigned[0])) * (yb[1] * ua[1] - ya[1] * ub[1])
+        want_inv = float(nsigned[0]) * (yb[1] * ua[1] - ya[1] * ub[1])
+        fl = ('mirror-unsigned-index',) if first_mirror else ()
         rec.close('invariant-accessor', _scalar(par.invariant()), want_inv, 1e-9, scale=sc,
-                  msg='invariant() vs n(ybar u - y ubar) at surface 1')
+                  alt=(abs(float(nsigned[0])) * (yb[1] * ua[1] - ya[1] * ub[1]) if fl else None), flags=fl,
+                  msg='invariant() vs n(ybar u - y ubar) at surface 1 (signed index)')
     else:
         rec.cls('chief-ray-non-finite')
 
